@@ -35,11 +35,12 @@ func zzNewBlob(blocks int) *zzBlob {
 }
 
 func (f *zzBlob) ReadAt(buf []byte, off int64) (int, error) {
-	for i := range buf {
-		buf[i] = 0
-	}
+	n := 0
 	if int(off) < len(f.data) {
-		copy(buf, f.data[off:])
+		n = copy(buf, f.data[off:])
+	}
+	if n < len(buf) {
+		copy(buf[n:], make([]byte, len(buf)-n))
 	}
 	return len(buf), nil
 }
@@ -102,8 +103,11 @@ func zzBlobFallocate(fd int, mode uint32, off int64, length int64) error {
 	if f == nil {
 		return syscall.EBADF
 	}
-	for x := int(off); x < int(off+length) && x < len(f.data); x++ {
-		f.data[x] = 0
+	if end := int(off + length); int(off) < len(f.data) && off >= 0 && length > 0 {
+		if end > len(f.data) {
+			end = len(f.data)
+		}
+		copy(f.data[off:end], make([]byte, end-int(off)))
 	}
 	for b := 0; b < f.blocks; b++ {
 		if int64(b*4096) >= off && int64((b+1)*4096) <= off+length {
